@@ -6,10 +6,11 @@ import fcntl, hashlib, json, os, random, re, subprocess, sys, time
 VERIF = os.path.dirname(os.path.dirname(os.path.abspath(__file__)))
 LEAN = os.path.join(VERIF, "lean")
 HARNESS = os.path.join(VERIF, "harness")
-REPO = "/repo"
+REPO = os.environ.get("VERIF_REPO", "/repo")        # a scratch worktree when evaluating seeded changes
 DRIVER = os.path.join(LEAN, ".lake/build/bin/modeldriver")
-EVIDENCE = os.path.join(VERIF, "evidence")
-REPLAYS = os.path.join(VERIF, "replays")
+OUT = os.environ.get("VERIF_OUT", VERIF)              # where evidence/ and replays/ are written
+EVIDENCE = os.path.join(OUT, "evidence")
+REPLAYS = os.path.join(OUT, "replays")
 RUSTFLAGS = "--cfg rngs_verif --check-cfg cfg(rngs_verif)"
 
 LEVEL = "proof"
@@ -76,15 +77,35 @@ def lake_build(targets):
         rc, out, err = sh(["lake", "build"] + targets, cwd=LEAN, timeout=7200)
     return rc == 0, out + err
 
+def harness_dir():
+    """the harness crate; for a scratch repository (VERIF_REPO) a copy whose path dependencies point there"""
+    if REPO == "/repo":
+        return HARNESS
+    d = os.path.join(REPO, ".verif_harness")
+    os.makedirs(os.path.join(d, "src"), exist_ok=True)
+    os.makedirs(os.path.join(d, ".cargo"), exist_ok=True)
+    for rel in ("src/main.rs", "Cargo.lock", ".cargo/config.toml"):
+        src = open(os.path.join(HARNESS, rel)).read()
+        dst = os.path.join(d, rel)
+        if not os.path.exists(dst) or open(dst).read() != src:
+            open(dst, "w").write(src)
+    toml = open(os.path.join(HARNESS, "Cargo.toml")).read().replace('path = "/repo/', f'path = "{REPO}/')
+    if not os.path.exists(os.path.join(d, "Cargo.toml")) or open(os.path.join(d, "Cargo.toml")).read() != toml:
+        open(os.path.join(d, "Cargo.toml"), "w").write(toml)
+    return d
+
 def harness_build(profile="tie", serde=True, target_dir=None):
-    """cargo build of the harness against /repo's *current* working tree, hooks on."""
+    """cargo build of the harness against the repository's *current* working tree, hooks on."""
     cmd = ["cargo", "build", "--offline", "--profile", profile]
     if not serde:
         cmd += ["--no-default-features"]
-    td = target_dir or os.path.join(HARNESS, "target")
+    hd = harness_dir()
+    if target_dir and REPO != "/repo":
+        target_dir = os.path.join(hd, os.path.basename(target_dir))
+    td = target_dir or os.path.join(hd, "target")
     env = {"RUSTFLAGS": RUSTFLAGS, "CARGO_NET_OFFLINE": "true", "CARGO_TARGET_DIR": td}
     with Lock(".lock-cargo-" + hashlib.md5(td.encode()).hexdigest()[:8]):
-        rc, out, err = sh(cmd, cwd=HARNESS, env=env, timeout=3600)
+        rc, out, err = sh(cmd, cwd=hd, env=env, timeout=3600)
     pdir = "debug" if profile == "dev" else profile
     return rc == 0, out + err, os.path.join(td, pdir, "rngs_harness")
 
